@@ -373,6 +373,36 @@ def run_C07(em, impl, tabs, rng, thorough):
             ok = False
         if not ok:
             em.violation("C07: eval(repr(m)) does not rebuild the payload", {"payload": p.hex(), "repr": repr(m)[:200]}, {})
+    # the round trip while another thread is parsing too (two messages under construction at the same time)
+    okp = [p for p in pays if impl.construct(p, 1)[0] == 0][:40]
+    refs = {p: gen.public_attrs(impl.construct(p, 1)[1]) for p in okp}
+    errs = []
+
+    def worker(seed):
+        r = random.Random(seed)
+        mine = list(okp)
+        r.shuffle(mine)
+        for p in mine:
+            try:
+                m = RTCMMessage(payload=p)
+                m2 = RTCMReader.parse(m.serialize())
+                if m2.payload != p or gen.public_attrs(m2) != refs[p] or gen.public_attrs(m) != refs[p]:
+                    errs.append(p)
+            except Exception:  # noqa
+                errs.append(p)
+    oldsw = sys.getswitchinterval()
+    sys.setswitchinterval(1e-6)
+    try:
+        ths = [threading.Thread(target=worker, args=(i,)) for i in range(4)]
+        for t in ths:
+            t.start()
+        for t in ths:
+            t.join()
+    finally:
+        sys.setswitchinterval(oldsw)
+    em.direct_evaluations += 4 * len(okp)
+    for p in errs[:2]:
+        em.violation("C07: parse(serialize(m)) does not give back the attributes when another thread is parsing at the same time", {"payload": p.hex(), "note": "4 threads, switch interval 1e-6"}, {})
     em.samples = [{"payload": p.hex()[:100]} for p in pays[:3]]
 
 
@@ -493,6 +523,45 @@ def run_C13(em, impl, tabs, rng, thorough):
         if len(vs) > 1:
             em.violation("C13: the same bytes parse differently depending on what was parsed before (fresh interpreters, different orders)",
                          {"payload": pl.hex()}, {"n_distinct_results": len(vs)})
+    # COLD START under concurrency: in a fresh interpreter the very first parses of the process run on 12 threads released by a
+    # barrier (lazily built lookup structures, first-use initialisation); every thread's results must equal the sequential ones
+    if views:
+        seqv = views[0]
+        cold = [x for x in uniq if len(x) >= 8][:: max(1, len(uniq) // 14)][:14]
+        cold_helper = ("import sys,json,threading;sys.path[:0]=%r;sys.setswitchinterval(1e-6);import vlib,gen,drv_msg;impl=drv_msg.Impl();"
+                       "ps=[bytes.fromhex(x) for x in json.load(sys.stdin)];N=12;bar=threading.Barrier(N);out=[None]*N\n"
+                       "def w(i):\n"
+                       "    mine=ps[i%%len(ps):]+ps[:i%%len(ps)]\n"
+                       "    bar.wait()\n"
+                       "    out[i]=[[p.hex(),impl.observe(p,1,0)[0].hex(),[f.hex() for f in impl.observe(p,1,0)[1]]] for p in mine]\n"
+                       "ts=[threading.Thread(target=w,args=(i,)) for i in range(N)]\n"
+                       "[t.start() for t in ts];[t.join() for t in ts]\n"
+                       "print(json.dumps(out))") % ([_os.path.dirname(__file__), _os.path.join(_os.path.dirname(_os.path.dirname(__file__)), "tools")],)
+        rounds = 64 if thorough else 32
+        bad_cold = None
+        for base in range(0, rounds, 8):
+            procs = [_sp.Popen([sys.executable, "-c", cold_helper], stdin=_sp.PIPE, stdout=_sp.PIPE, stderr=_sp.PIPE, text=True, env=dict(_os.environ))
+                     for _ in range(min(8, rounds - base))]
+            for pr in procs:
+                try:
+                    so, se = pr.communicate(_json.dumps([x.hex() for x in cold]), timeout=300)
+                except _sp.TimeoutExpired:
+                    pr.kill()
+                    so, se = "", "timeout"
+                em.direct_evaluations += 12 * len(cold)
+                if pr.returncode != 0 or not so.strip():
+                    bad_cold = bad_cold or ("interpreter failed: " + se[-300:], None)
+                    continue
+                for th in _json.loads(so):
+                    for ph, a_, f_ in (th or []):
+                        if seqv.get(bytes.fromhex(ph)) != (str(a_), str(f_)):
+                            bad_cold = bad_cold or ("differs", ph)
+            if bad_cold:
+                break
+        if bad_cold:
+            em.violation("C13: when the first parses of a process run concurrently (12 threads released together in a fresh interpreter) a result differs from the sequential parse of the same bytes (%s)" % bad_cold[0],
+                         {"payload": bad_cold[1] or "", "note": "cold start: fresh interpreter, 12 threads, switch interval 1e-6"}, {})
+        em.count("coldstart.rounds", rounds)
     ref = {}
     for p in set(order):
         ref[p] = impl.observe(p, 1, FULL)[:3]
